@@ -665,7 +665,7 @@ func e2e(c *lib.Ctx) {
 			fc.Fixed = true
 			cases = append(cases, fc)
 		}
-		n := c.Scale(100, 3000)
+		n := c.Scale(100, 1500)
 		for i := 0; i < n; i++ {
 			r := c.Rng.Fork()
 			defs := r.Chance(1, 5)
